@@ -63,6 +63,18 @@ def _quiet():
 
 
 SPLIT1 = 3          # depth of the first, sequential split
+_RUNDIR = [None]
+
+
+def cleanup():
+    import shutil
+    if _RUNDIR[0]:
+        shutil.rmtree(_RUNDIR[0], ignore_errors=True)
+
+
+def _stop_flag(obname):
+    d = _RUNDIR[0] or os.environ.get("VERIF_RUNDIR")
+    return os.path.join(d, obname + ".stop") if d else None
 
 
 def _job(args):
@@ -92,20 +104,36 @@ def _job(args):
             keyfn = lambda c: ob.classify(c.to_json())  # noqa: E731
         deadline = t0 + ob.budget_s
         out = {"stats": None, "cex": [], "cex_keys": {}, "inconclusive": [], "prefixes": [], "error": None}
+        flag = _stop_flag(obname)
+        if flag and os.path.exists(flag):
+            # the parent has already collected counterexamples that are not listed known findings for this obligation
+            out["stats"] = core.Stats().to_json()
+            out["samples"] = []
+            out["inconclusive"] = ["remaining shards skipped after counterexamples were found"]
+            out["wall_s"] = 0.0
+            return out
+        prop_id = modname.split(".")[-1].upper()
+        known = set(load_known(prop_id))
+        known |= {k.split(":", 1)[1] for k in known if k.startswith(obname + ":")}
+
+        def _mk(**kw):
+            ex = core.Explorer(**kw)
+            ex.known_keys = known
+            return ex
         if mode == "split":
             # payload = {"depth": d, "prefixes": [...] | None}: two-level splitting - a shallow sequential split, then the deep split of
             # every shallow prefix runs in parallel worker processes
             depth = (payload or {}).get("depth", ob.shard_depth)
             exs = []
             for prefix in ((payload or {}).get("prefixes") or [None]):
-                ex = core.Explorer(prefix=prefix, split_depth=depth, timeout_ms=ob.timeout_ms, deadline=deadline, cex_key=keyfn)
+                ex = _mk(prefix=prefix, split_depth=depth, timeout_ms=ob.timeout_ms, deadline=deadline, cex_key=keyfn)
                 ex.run(ob.body)
                 exs.append(ex)
                 out["prefixes"] += ex.prefixes
         else:
             exs = []
             for prefix in payload:
-                ex = core.Explorer(prefix=prefix, timeout_ms=ob.timeout_ms, deadline=deadline, cex_key=keyfn)
+                ex = _mk(prefix=prefix, timeout_ms=ob.timeout_ms, deadline=deadline, cex_key=keyfn)
                 ex.run(ob.body)
                 exs.append(ex)
         st = core.Stats()
@@ -185,9 +213,20 @@ def run_property(prop_id, tier, modname, level="other", explanation="", assumpti
                                          "cex": [], "cex_keys": {}, "inconclusive": [], "errors": [], "jobs": 0, "wall_s": 0.0,
                                          "samples": [], "custom": None} for o in obs}
 
+    import tempfile
+    rundir = tempfile.mkdtemp(prefix="run-", dir=os.path.join(VERIF, "scratch") if os.path.isdir(os.path.join(VERIF, "scratch")) or not os.makedirs(os.path.join(VERIF, "scratch"), exist_ok=True) else None)
+    _RUNDIR[0] = rundir
+    os.environ["VERIF_RUNDIR"] = rundir
+    known_now = set(load_known(prop_id))
+
     def absorb(name, r):
         R = results[name]
         R["jobs"] += 1
+        if r.get("cex_keys") and any(k not in known_now and f"{name}:{k}" not in known_now for k in r["cex_keys"]):
+            try:
+                open(os.path.join(rundir, name + ".stop"), "w").close()      # later shards of this obligation return at once
+            except OSError:
+                pass
         R["wall_s"] += r.get("wall_s", 0.0)
         if r.get("error"):
             R["errors"].append(r["error"])
